@@ -479,7 +479,7 @@ def c07_template_rules(ck, F):
                 ck.violation("R5", f"{gname}:check-arg", g.open.site,
                              f"struct `{gname}`: emitted checks pass {bad_args}, which is neither the incoming parameter nor the type's own "
                              f"restriction set", fn=short)
-    ck.floor("R3", "struct+impl template groups", n_groups, 5)
+    ck.floor("R3", "struct+impl template groups", n_groups, 3)
     facet_table(ck, F, X)
 
 
